@@ -64,6 +64,8 @@ def generate(rng, tier):
                 break
         world = {"kind": "discrete", "w": w, "h": h, "d": d, "den": 1, "wrap": False}
     names = [f"c{i}" for i in range(rng.randint(2, 5))]
+    if rng.random() < 0.15:
+        names[rng.randrange(len(names))] = rng.choice(["", "{x}", "%s", "a b", "0"])     # falsy / format-syntax column names
     ops = []
     for _ in range(rng.randint(3, 35 if tier == "thorough" else 25)):
         r = rng.random()
@@ -290,6 +292,8 @@ def execute(sc, ctx):
                 ctx.expect_raises("remove-unknown", ComponentNotFoundError, env.remove_cell_component, name)
             ctx.event("remove", name)
         elif kind == "remove_unknown":
+            if op["name"] in live:
+                continue
             ctx.fault("reject.cell_unknown")
             ctx.probe("remove_unknown_rejected")
             ctx.expect_raises("remove-unknown", ComponentNotFoundError, env.remove_cell_component, op["name"])
